@@ -34,6 +34,10 @@ type c12Case struct {
 	Handlers    []string        `json:"handlers"`    // ignoreerrors ignoremissing onmissing onerror-pass onerror-swallow onerror-replace
 	Provider    bool            `json:"provider"`
 	DirectLinks bool            `json:"direct_links"` // GetLinksDirect instead of GetLinksWithDAG
+	// FetchGraph: call FetchGraphWithDepthLimit itself (its own depth-aware visit
+	// function) instead of WalkDepth with the harness's visit function; what it
+	// visited is read off the fetches the DAG service saw
+	FetchGraph bool `json:"fetch_graph,omitempty"`
 }
 
 func c12Gen(t *rapid.T, tier string) any {
@@ -62,6 +66,9 @@ func c12Gen(t *rapid.T, tier string) any {
 	c.Handlers = rapid.SliceOfN(rapid.SampledFrom([]string{"ignoreerrors", "ignoremissing", "onmissing", "onerror-pass", "onerror-swallow", "onerror-replace"}), 0, 3).Draw(t, "handlers")
 	c.Provider = rapid.Bool().Draw(t, "provider")
 	c.DirectLinks = rapid.Bool().Draw(t, "direct")
+	if c.DepthLimit >= -1 {
+		c.FetchGraph = rapid.Bool().Draw(t, "fetchgraph")
+	}
 	c.Cfg = verifsim.GenConfig(t, 400, 20000, time.Minute, nil)
 	return c
 }
@@ -74,11 +81,11 @@ func (p *c12Provider) StartProviding(force bool, hs ...mh.Multihash) error {
 	}
 	return nil
 }
-func (p *c12Provider) StopProviding(...mh.Multihash) error     { return nil }
-func (p *c12Provider) ProvideOnce(...mh.Multihash) error        { return nil }
-func (p *c12Provider) Clear() int                               { return 0 }
-func (p *c12Provider) RefreshSchedule(...mh.Multihash) error    { return nil }
-func (p *c12Provider) Close() error                             { return nil }
+func (p *c12Provider) StopProviding(...mh.Multihash) error   { return nil }
+func (p *c12Provider) ProvideOnce(...mh.Multihash) error     { return nil }
+func (p *c12Provider) Clear() int                            { return 0 }
+func (p *c12Provider) RefreshSchedule(...mh.Multihash) error { return nil }
+func (p *c12Provider) Close() error                          { return nil }
 
 var errC12Replaced = errors.New("c12: replaced error")
 
@@ -263,7 +270,9 @@ func c12Run(t *testing.T, ci any, trace bool) *verifsim.Result {
 		s.Go("walker", func() {
 			ctx, cancel := context.WithCancel(context.Background())
 			defer cancel()
-			if c.DepthLimit == -2 {
+			if c.FetchGraph {
+				werr = FetchGraphWithDepthLimit(ctx, cids[0], c.DepthLimit, dag, opts...)
+			} else if c.DepthLimit == -2 {
 				werr = Walk(ctx, getLinks, cids[0], visitSet, opts...)
 			} else {
 				werr = WalkDepth(ctx, getLinks, cids[0], visitDepth, opts...)
@@ -283,6 +292,15 @@ func c12Run(t *testing.T, ci any, trace bool) *verifsim.Result {
 		time.Sleep(time.Second)
 
 		// ---- oracles ----
+		skipRoot := c.SkipRoot
+		if c.FetchGraph {
+			// FetchGraph has no visit callback: a node was visited iff it was fetched
+			// (the root included, whatever SkipRoot says about the callback)
+			skipRoot = false
+			for _, k := range dag.Gets {
+				visited[k.KeyString()] = true
+			}
+		}
 		var vis []string
 		for k := range visited {
 			i, ok := idx[k]
@@ -300,7 +318,7 @@ func c12Run(t *testing.T, ci any, trace bool) *verifsim.Result {
 		if werr == nil {
 			var want []string
 			for i := range dist {
-				if within(i) && !(c.SkipRoot && i == 0) {
+				if within(i) && !(skipRoot && i == 0) {
 					want = append(want, fmt.Sprintf("n%d", i))
 				}
 			}
